@@ -1,0 +1,26 @@
+//go:build verif
+
+// Package verifhook provides named yield points used by external runtime-verification
+// harnesses. With the `verif` build tag a harness may register a callback that is invoked
+// at every yield point (to record the order of events or to delay the calling goroutine).
+package verifhook
+
+import "sync/atomic"
+
+var cb atomic.Pointer[func(point string)]
+
+// Set registers fn to be called at every yield point. Passing nil removes the callback.
+func Set(fn func(point string)) {
+	if fn == nil {
+		cb.Store(nil)
+		return
+	}
+	cb.Store(&fn)
+}
+
+// At marks a named yield point.
+func At(point string) {
+	if fn := cb.Load(); fn != nil {
+		(*fn)(point)
+	}
+}
